@@ -1,10 +1,10 @@
 package main
 
 import (
-	"strings"
 	"go/constant"
 	"go/token"
 	"go/types"
+	"strings"
 
 	"golang.org/x/tools/go/ssa"
 )
